@@ -236,7 +236,9 @@ pub fn h_c15_dedup() {
         }
     }
     sym::class("KF-C15-declaration-removed-although-descendant-shadows-the-other-prefix", shadowing);
-    xot.deduplicate_namespaces(ch.doc);
+    // called on the document or (for the layouts without own declarations on the extra element) on an inner element
+    let target = if c3 == 0 && sym::choose("target", 2) == 1 { ch.e[1] } else { ch.doc };
+    xot.deduplicate_namespaces(target);
     for (k, e) in all.iter().enumerate() {
         let after = decls(&xot, *e);
         for d in &after {
@@ -275,7 +277,7 @@ pub fn h_c15_dedup() {
         }
     }
     sym::class("KF-C15-second-pass-after-default-declaration-removed", default_removed);
-    xot.deduplicate_namespaces(ch.doc);
+    xot.deduplicate_namespaces(target);
     let twice: Vec<Vec<(String, String)>> = all.iter().map(|e| decls(&xot, *e)).collect();
     sym::check("second-call-removes-nothing", once == twice);
 }
@@ -436,9 +438,25 @@ pub fn h_c14_pretty() {
     };
     let params = Parameters { indentation: Some(Indentation { suppress: suppress.clone() }), ..Default::default() };
     let node = if sym::choose("node", 2) == 0 { doc } else { a };
+    // the pretty token stream is the other entry point with a suppress list: what it spells must be the same text
+    let mut from_tokens = String::new();
+    let tp = TokenSerializeParameters { cdata_section_elements: vec![], unescaped_gt: false };
+    for (_n, _o, t) in xot.pretty_tokens(node, tp, &suppress, NoopNormalizer) {
+        for _ in 0..t.indentation {
+            from_tokens.push_str("  ");
+        }
+        if t.space {
+            from_tokens.push(' ');
+        }
+        from_tokens.push_str(&t.text);
+        if t.newline {
+            from_tokens.push('\n');
+        }
+    }
     match xot.serialize_xml_string(params, node) {
         Ok(s) => {
             sym::emit_str("xml", &s);
+            sym::check("pretty-tokens-spell-the-same-text", from_tokens == s);
             match xot.parse(&s) {
                 Ok(d2) => {
                     let top = xot.document_element(d2).unwrap();
